@@ -56,6 +56,16 @@ func (t TypeRef) String() string {
 type ArgDesc struct {
 	Name string  `json:"name"`
 	Type TypeRef `json:"type"`
+	// Role is the generated shape ("k", "l", "r") when Name has been replaced by a long identifier
+	// ("" = Name). The argument of role "k" is never renamed: the generic resolver reads it by name.
+	Role string `json:"role,omitempty"`
+}
+
+func (a ArgDesc) role() string {
+	if a.Role != "" {
+		return a.Role
+	}
+	return a.Name
 }
 
 type FieldDesc struct {
@@ -161,6 +171,8 @@ func contains(xs []string, x string) bool {
 type Node struct {
 	Type   string
 	Fields map[string]*Outcome
+	// Also: further object types whose IsTypeOf accepts this value (overlapping IsTypeOf; see Outcome.Also).
+	Also []string
 }
 
 // Built is a schema description turned into a real schema.
@@ -212,7 +224,7 @@ func Build(desc *SchemaDesc) (*Built, error) {
 			name := t.Name
 			b.Named[t.Name] = &graphql.ObjectType{Name: t.Name, IsTypeOf: func(v interface{}) bool {
 				n, ok := v.(*Node)
-				return ok && n != nil && n.Type == name
+				return ok && n != nil && (n.Type == name || contains(n.Also, name))
 			}}
 		case "interface":
 			b.Named[t.Name] = &graphql.InterfaceType{Name: t.Name}
